@@ -112,7 +112,8 @@ def gen_case(rng, max_rows=4, rows=None, modes=(50, 30, 8, 9, 3), clean=False, m
     via = 'create' if rng.random() < 0.65 else 'xml'
     srcs, inputs = gen_layout(rng, kind, via, max_inputs=max_inputs, clean=clean)
     case = {'kind': kind, 'via': via, 'srcs': srcs, 'inputs': inputs,
-            'material': rng.choice([None, 1, 2])}
+            'material': rng.choice([None, 1, 2]),
+            'dtype': rng.choice(['int32', 'int32', 'int64', 'uint32']), 'vcform': rng.choice(['array', 'list'])}
     nind = max(all_offsets(case)) + 1
     k = KK[kind]
     if rows is None:
@@ -180,10 +181,6 @@ def gen_case(rng, max_rows=4, rows=None, modes=(50, 30, 8, 9, 3), clean=False, m
             # two individually ragged polygons whose total length divides evenly
             if nind > 1:
                 polys = polys + [[0] * (nind + 1), [0] * (nind - 1)]
-        if via == 'xml':
-            # an empty <p/> makes Polygons.load raise a raw TypeError before any constructor runs
-            # (load-path exception hygiene is C08's subject); zero-corner polygons go through create*
-            polys = [p for p in polys if p]
         case['polys'] = polys
     else:
         case['flat'] = flat
